@@ -116,7 +116,7 @@ def tok_regex(kind, text):
 
             _RE_CACHE[key] = getattr(L, text).regex
         elif kind == "re":
-            _RE_CACHE[key] = re.compile(text)
+            _RE_CACHE[key] = re.compile(text, re.MULTILINE)  # arpeggio.RegExMatch default flags
         else:
             _RE_CACHE[key] = None
     return _RE_CACHE[key]
@@ -251,10 +251,44 @@ def load(mm, text):
     return o
 
 
+_MARK = re.compile("\x01([^\x02]*)\x02")
+
+
+def norm_value(v, container_id=None, root=True):
+    """Lean `Value` JSON -> the format of dump_value (float() / str(float()) evaluated here)."""
+    if isinstance(v, list):
+        return [norm_value(x, container_id, False) for x in v]
+    if "cls" in v:
+        par = (v["parent"] is None) if root else (v["parent"] == container_id)
+        return {"cls": v["cls"], "parent": par, "attrs": [[n, norm_value(x, v["id"], False)] for n, x in v["attrs"]]}
+    if v["p"] == "float":
+        return {"p": "float", "v": repr(float(v["src"]))}
+    if v["p"] == "str":
+        return {"p": "str", "v": _MARK.sub(lambda m: str(float(m.group(1))), v["v"])}
+    return v
+
+
+def same_outcome(real, m):
+    """None when the real outcome and a Lean outcome agree (or the case belongs to C03), else a description."""
+    if m.get("c03"):
+        return None
+    if "ok" in m:
+        mv = {"ok": norm_value(m["ok"])}
+    else:
+        mv = m
+    if real.get("other") in ("RecursionError", "Timeout", "MemoryError"):
+        return None if m.get("err") == "fuel" else f"real {real} vs {str(mv)[:300]}"
+    if "other" in real:
+        real = {"other": real["other"]}
+    if real == mv:
+        return None
+    return f"real {str(real)[:400]} vs {str(mv)[:400]}"
+
+
 # --------------------------------------------------------------------------
 class Prop(Check):
     ID = "C01"
-    LEAN_MODULE = "TextxVerif.Tx.Compile"
+    LEAN_MODULE = "TextxVerif.Tx.Build"
     THEOREMS = []
     DRIVER = "Drivers/Tx.lean"
     QUICK_CASES = 300
@@ -302,9 +336,30 @@ class Prop(Check):
             gram, toks = to_lean(case["gram"])
         except Unsupported:
             return None
-        return {"op": "compile", "gram": gram}
+        texts = []
+        if "compiled" in obs:
+            nn = len(obs["compiled"]["table"]["nodes"]) + 12
+            for t in case["texts"]:
+                rows, groups, g1 = tok_rows(toks, t)
+                texts.append({"input": t, "toks": rows, "groups": groups, "g1": g1,
+                              "fuel": min(30000, 80 + 8 * (len(t) + 2) * nn)})
+        return {"op": "case", "gram": gram, "cfg": lean_cfg(case["cfg"]), "texts": texts}
 
     def compare(self, case, obs, out):
+        if "compiled" not in out:
+            return f"model rejected the request: {str(out)[:200]}"
+        d = self.compare_compile(case, obs, out["compiled"])
+        if d or "compiled" not in obs or "ok" not in out["compiled"]:
+            return d
+        if out["compiled"]["ok"]["multSensitive"]:
+            return None
+        for t, real, m in zip(case["texts"], obs["loads"], out["loads"]):
+            d = same_outcome(real, m)
+            if d:
+                return f"load {t!r}: {d}"
+        return None
+
+    def compare_compile(self, case, obs, out):
         if "grammar_error" in obs:
             ge = obs["grammar_error"]
             if out.get("error") == ge:
